@@ -231,8 +231,22 @@ def _atof64_check(rep, mod):
                 if o.k == 'inst' and (o.id == E['phi'].id or (f.insts[o.id].op in ('mul', 'sub', 'select') and
                                                                depends_mul(f, o, E['phi']))):
                     merges.append((i, i.ops[k]))
+    if not merges:
+        for i in f.all_insts():
+            if i.op == 'sub' and i.block not in E['loop']['blocks'] and i.ops[0].k == 'inst':
+                o = strip(f, i.ops[1], ops=('sext', 'zext'))
+                if o.k == 'inst' and (o.id == E['phi'].id or depends_mul(f, o, E['phi'])):
+                    raise AnalysisBroken('%s: the exponent is merged into the scale by a subtraction at %s: form not '
+                                         'recognised' % (fname, i.where()))
+        # the exponent value exists (the accumulation loop was found) but nothing adds it to the count of fraction digits:
+        # whatever else is done with it, "1.5e2" can no longer come out as 150 (the scale is -1 + 2)
+        rep.inst('R-ATOF64', fname, 'the exponent is added to the fraction-digit scale', False, E['add'].where(),
+                 'no addition combines the parsed exponent with the (negative) count of fraction digits: a literal with both a '
+                 'fraction and an exponent is scaled by the exponent alone (e.g. "1.5e2" gives 1500)')
+        return
     if len(merges) != 1:
         raise AnalysisBroken('%s: expected one addition of the exponent to the scale count, found %d' % (fname, len(merges)))
+    rep.inst('R-ATOF64', fname, 'the exponent is added to the fraction-digit scale', True, merges[0][0].where())
     M, contrib = merges[0]
     rets = f.returns()
     signs = []
